@@ -33,6 +33,8 @@ mod imp {
         n: u32,
         terms: Vec<Term>,
         eqs: Vec<(usize, usize)>,
+        #[serde(default)]
+        base: Vec<usize>,
     }
     #[derive(Deserialize)]
     struct SpecObs { key: Vec<usize> }
@@ -82,6 +84,10 @@ mod imp {
                 let built = guard(|| {
                     let mut eg: EGraph<T> = EGraph::default();
                     let mut asserted = Vec::new();
+                    // the universe's base terms (parents, other spellings of congruent nodes) are there from the start
+                    let mut base = uni.base.clone();
+                    if variant == 1 { base.reverse(); }
+                    for t in base { eg.add_syn_expr(ex(t)); }
                     for (k, e) in key.iter().enumerate() {
                         let (mut a, mut b) = uni.eqs[*e - 1];
                         if (variant + k) % 2 == 1 { std::mem::swap(&mut a, &mut b); }
@@ -94,7 +100,16 @@ mod imp {
                 });
                 let mut eg = match built {
                     Ok((eg, a)) => { asserted = a; eg }
-                    Err(_) => { nbuild_panics += 1; continue; } // D1/D2: attributed to C08
+                    Err(p) => {
+                        nbuild_panics += 1;
+                        // a panic inside the explanation machinery while the history is built (a proof of a congruence or of
+                        // a symmetry could not be constructed) is a failure of C07's subject; other panics belong to C08
+                        if p.site.contains("src/explain/") {
+                            println!("{}", json!({"kind":"finding","prop":"C07","what":"building the history panics inside the explanation machinery","site":p.site,
+                                "universe":uni.name,"detail":{"msg":p.msg,"key":st.key,"naming":kind,"variant":variant}}));
+                        }
+                        continue;
+                    }
                 };
                 // rule applications: rewrite rules whose applier logs every instantiated pair and
                 // asserts it with the rule's name as justification (= union_instantiations)
